@@ -123,7 +123,8 @@ func Topo(kind string, shape PathShape, goFunc bool, root string, n int) *spec.S
 		conn("srb.out", "A2.in")
 		conn("A.out", "B.in")
 		conn("A2.out", "B.in")
-	case "chain":
+	case "chain", "emptyout":
+		// "emptyout": the same chain, but the outputs of A and B are legitimately empty files (see TopoBehav)
 		addSrc("src", n)
 		addProc("A", in, []string{"out"}, nil, nil, pk)
 		addProc("B", in, []string{"out"}, nil, nil, spec.KCmd)
@@ -226,6 +227,10 @@ func Topo(kind string, shape PathShape, goFunc bool, root string, n int) *spec.S
 // additional files with names of its own, one of them in a not yet existing sub-directory).
 func TopoBehav(kind string, exp *ref.Result) vproto.Behaviours {
 	bh := vproto.Behaviours{}
+	if kind == "emptyout" {
+		bh["A"] = map[string]string{"size": "-1"}
+		bh["B"] = map[string]string{"size": "-1"}
+	}
 	if kind == "extra" {
 		for i, t := range exp.ByProc["A"] {
 			bh[t.Key] = map[string]string{"extra": fmt.Sprintf("side%d.A.log,sub%d/deep/side2.A.log,zz%d.A.log", i, i, i)}
